@@ -236,7 +236,10 @@ def c12_contradictory_strict_pair(v):
     # the recorded mechanism, quantitatively: a strict pair shows as a '!=' line; a complement pair vanishes without leaving an equality behind
     eq_in, eq_out = r.get('equalities_in'), r.get('equalities_out') or []
     if r.get('hostile') == 'contradiction' or r.get('mirrored_pair') == 'contradictory_strict':
-        return r.get('merged_to_not_equal') is True
+        if r.get('merged_to_not_equal') is True: return True
+        # a text labelled by its strict pair may hold an identically spelled complement pair as well (A <= c with A > c): then the complement signature shows
+        return (r.get('mirrored_pair') == 'contradictory_strict' and r.get('merged_to_not_equal') is False and all(n == (eq_in or 0) for n in eq_out)
+                and _has_identical_complement_pair(r.get('text') or ''))
     if r.get('mirrored_pair') == 'contradictory_complement':
         if r.get('merged_to_not_equal') is False and all(n == (eq_in or 0) for n in eq_out): return True
         # the same text may also hold a pinch (E <= c with -E <= -c), which legitimately becomes ONE equality: then exactly one more equality comes out
@@ -271,6 +274,17 @@ def _has_pinch_pair(text):
             if set(a) == set(b) and all(abs(a[k] + b[k]) <= 1e-12 * max(1.0, abs(a[k])) for k in a) and abs(c + d) <= 1e-12 * max(1.0, abs(c)) and any(a.values()):
                 return True
     return False
+
+
+def _has_identical_complement_pair(text):
+    seen = {}
+    for line in text.splitlines():
+        for cmp in (' <= ', ' >= ', ' < ', ' > '):
+            if cmp in line:
+                l, r_ = line.split(cmp, 1)
+                seen.setdefault((l.strip(), r_.strip()), set()).add(cmp.strip())
+                break
+    return any({'<=', '>'} <= v or {'>=', '<'} <= v for v in seen.values())
 
 
 def _has_identical_strict_pair(text):
